@@ -457,9 +457,6 @@ func runC06(w *World) {
 			}
 			if d := L.inst.srv.aofsz - fi.srv.aofsz; d > 0 {
 				w.stat("c06.caught_up_reported_with_leader_ahead", 1)
-				if d > w.stats["c06.max_bytes_behind_when_caught_up_reported"] {
-					w.stats["c06.max_bytes_behind_when_caught_up_reported"] = d
-				}
 			}
 		}
 		if fi.lock.writer != nil {
